@@ -12,7 +12,6 @@ check('C16', 'symbolic execution of the MIR of Sanitizer::* with all inputs up t
       'trusted: python models of std str/String/char/iterator functions (validated against the native build on every run with the repo test literals and seeded random inputs), the alphabet class argument for code points outside ASCII+R, z3. separator none is outside the statement: only length bound/panic freedom (and, without max_length, leading-zero rule + idempotence).',
       'DESIGN.md §3, §7 C16')
 
-NA['C14'] = 'environment independence quantifies over processes, time zones, locales and cwd; symbolic execution of functions has no process environment (DESIGN §6)'
 NA['C18'] = 'finite table comparison between python source and clap derive metadata plus process execution; nothing to decide symbolically, clap builder code is outside both engines (DESIGN §6)'
 
 check('C10', 'symbolic execution of the MIR of <SemVer as Ord>::cmp / PartialEq::eq / partial_cmp on symbolic version pairs and triples; z3 compares against an independent SemVer 2.0.0 §11 comparator',
@@ -127,3 +126,12 @@ check('C02', 'symbolic execution of the MIR of GitVcs::get_vcs_data (tag selecti
 for e in ENGINES:
     if e['name'] in ('msym', 'native-driver'):
         e['serves_properties'] = sorted(set(e['serves_properties']) | {'C02'})
+
+
+check('C14', '2-safety by self-composition on the MIR: each computation is executed twice on the same symbolic inputs under two independent symbolic process environments (time-zone offset, environment variables, RandomState keys are epoch-private solver variables; the clock is shared); z3 decides whether the two outputs can differ; a difference is replayed by running the real code in two differently configured processes (TZ, variables)',
+      'PARTIAL. Decided (in-process, sources none/stdin): resolve_timestamp for the 18 pattern names and any second 1970-2199; the template helpers hash / hash_int / format_timestamp; rendering of every menu/preset schema with a timestamp component in both formats; the whole flow pipeline (both passes, both renderers) on a subset of the C03 configurations — each executed twice with ENV epoch 1 and 2 (models_env.py): chrono Local / with_timezone::<Local> / TimeZone::timestamp_opt on Local read a symbolic whole-hour UTC offset in [-12,+14], std::env::var answers a symbolic presence and value per variable name, every RandomState::new() has fresh symbolic keys (DefaultHasher::new() has the fixed keys std documents), Utc::now is shared between the two executions so that the documented dev-timestamp dependence is factored out. Obligation: both executions succeed or fail together and print the same text. On the current tree no execution reads the environment, so the query is trivially unsat; the value of the check is that any environment read that reaches an output is either modelled (-> a replayed VIOLATION: tried with Utc->Local in parse_timestamp_component, DefaultHasher->RandomState in hash_int, an environment variable switching a pattern) or unsupported (-> exit 2), never a silent pass. UTC-correctness of the calendar fields themselves is C17. Not decided: separate OS processes as such, cwd / -C, locales, the git source (C02), iteration order of std HashMap/HashSet (modelled in insertion order).',
+      'trusted: models_env (which std/chrono functions read the environment and what they may return), the shared-clock factoring of the dev timestamp, python std / chrono / Tera-subset models, z3.',
+      'DESIGN.md §7 C14')
+for e in ENGINES:
+    if e['name'] in ('msym', 'native-driver'):
+        e['serves_properties'] = sorted(set(e['serves_properties']) | {'C14'})
